@@ -1,37 +1,23 @@
 (** Proofs about the [connIDManager] model, part 3: a computable check of the history
     hypotheses (for non-vacuity examples and for reading the theorems in chronological
-    order), and the witnesses that refute the retirement statement without [safe_add]. *)
+    order), and the former witnesses against the retirement statement (repeated
+    NEW_CONNECTION_ID for a probing ID), kept as regression examples of the repaired code. *)
 From Coq Require Import List ZArith Bool Lia.
 From V Require Import Gen.Params Lib.Hex ConnIDs.Model ConnIDs.ProofsGen ConnIDs.ProofsMgr ConnIDs.ProofsMgr2.
 Import ListNotations.
 Open Scope Z_scope.
-
-Definition safe_addb (st : mgr) (seq : Z) : bool :=
-  negb (existsb (Z.eqb seq) (pseqs (m_probing st))) &&
-  negb ((m_active st <? m_hprobe st) && ((seq =? m_hprobe st) || (seq =? m_active st))).
 
 Definition is_ok (r : rclass) : bool := match r with ROk => true | _ => false end.
 
 Definition op_okb (o : mop) (st : mgr) : bool :=
   negb (m_closed st) && is_ok (r_cls (snd (mgr_step o st))) &&
   match o with
-  | MAdd seq rpt _ _ _ => (0 <=? rpt) && (rpt <=? seq) && safe_addb st seq
+  | MAdd seq rpt _ _ _ => (0 <=? rpt) && (rpt <=? seq)
   | MAddPref _ _ => (m_active st =? 0) && (m_hprobe st =? 0)
   | MSetTok _ => match m_atok st with None => true | Some _ => false end
   | MClose => false
   | _ => true
   end.
-
-Lemma safe_addb_ok st seq : safe_addb st seq = true -> safe_add st seq.
-Proof.
-  unfold safe_addb, safe_add. intros H. apply andb_prop in H as [H1 H2].
-  apply negb_true_iff in H1. apply negb_true_iff in H2. split.
-  - intros Hin. assert (existsb (Z.eqb seq) (pseqs (m_probing st)) = true); [|congruence].
-    apply existsb_exists. exists seq. split; [assumption|apply Z.eqb_refl].
-  - intros [Hlt Heq]. apply andb_false_iff in H2 as [H2|H2].
-    + apply Z.ltb_ge in H2. lia.
-    + apply orb_false_elim in H2 as [Ha Hb]. apply Z.eqb_neq in Ha, Hb. lia.
-Qed.
 
 Lemma op_okb_ok o st : op_okb o st = true -> op_ok o st.
 Proof.
@@ -39,8 +25,7 @@ Proof.
   apply negb_true_iff in H1. split; [assumption|]. split.
   - destruct (r_cls (snd (mgr_step o st))); try discriminate. reflexivity.
   - destruct o; try exact I; try discriminate.
-    + apply andb_prop in H3 as [H3 Hs]. apply andb_prop in H3 as [Ha Hb].
-      apply Z.leb_le in Ha, Hb. split; [lia|apply safe_addb_ok; assumption].
+    + apply andb_prop in H3 as [Ha Hb]. apply Z.leb_le in Ha, Hb. lia.
     + apply andb_prop in H3 as [Ha Hb]. apply Z.eqb_eq in Ha, Hb. auto.
     + destruct (m_atok st); [discriminate|reflexivity].
 Qed.
@@ -68,20 +53,6 @@ Proof.
   intros H. rewrite <- (app_nil_r (rev ops)). apply hist_okb_reach_gen; [constructor|assumption].
 Qed.
 
-(** classes returned along a run *)
-Fixpoint mgr_classes (ops : list mop) (st : mgr) : list rclass :=
-  match ops with
-  | [] => []
-  | o :: r => r_cls (snd (mgr_step o st)) :: mgr_classes r (fst (mgr_step o st))
-  end.
-
-(** frames the parser can deliver: Retire Prior To <= Sequence Number, non-empty ID *)
-Definition parsable (o : mop) : bool :=
-  match o with
-  | MAdd seq rpt c _ _ => (0 <=? rpt) && (rpt <=? seq) && match c with [] => false | _ => true end
-  | _ => true
-  end.
-
 (* ---- witnesses (also replayed on the implementation by the harness: W1, W2, W3, W3b) ---- *)
 
 Definition w_init : cid := [222; 173; 190; 239].
@@ -96,51 +67,20 @@ Definition w3 : list mop := [w_add 1; w_add 2; MPathGet 1; MPathRetire 1; w_add 
 (** W3b: the active ID's frame is retransmitted while highestProbingID is above it *)
 Definition w3b : list mop := [w_add 1; w_add 2; w_add 3; MHsDone; MGet 0; MPathGet 1; w_add 1].
 
-Definition all_ok (ops : list mop) : bool :=
-  forallb parsable ops && forallb is_ok (mgr_classes ops (mgr_init w_init)).
-
-Lemma retire_refuted_in_use_w :
-  all_ok w1 = true /\
-  In 1 (held (mgr_run w1 (mgr_init w_init))) /\ retc 1 (m_log (mgr_run w1 (mgr_init w_init))) = 1.
-Proof. vm_compute. repeat split; auto. Qed.
-
-Lemma retire_refuted_held_twice_w :
-  all_ok w2 = true /\ cntz 1 (held (mgr_run w2 (mgr_init w_init))) = 2.
-Proof. vm_compute. auto. Qed.
-
-Lemma retire_refuted_reuse_w :
-  all_ok w3 = true /\
-  m_active (mgr_run w3 (mgr_init w_init)) = 1 /\ retc 1 (m_log (mgr_run w3 (mgr_init w_init))) = 1.
-Proof. vm_compute. auto. Qed.
-
-Lemma retire_refuted_active_w :
-  all_ok w3b = true /\
-  m_active (mgr_run w3b (mgr_init w_init)) = 1 /\ retc 1 (m_log (mgr_run w3b (mgr_init w_init))) = 1.
-Proof. vm_compute. auto. Qed.
-
-(** Without [safe_add] the retirement statement is false: there are histories of parsable
-    frames, all accepted, after which a RETIRE_CONNECTION_ID has been queued for a
-    sequence number the manager still uses (on a probing path: W1; as the active ID after
-    re-queuing a retired one: W3; as the active ID: W3b), or after which one sequence
-    number is held twice (W2). *)
-Theorem retire_refuted :
-  (exists ops s, forallb parsable ops = true /\ forallb is_ok (mgr_classes ops (mgr_init w_init)) = true /\
-                 In s (held (mgr_run ops (mgr_init w_init))) /\
-                 1 <= retc s (m_log (mgr_run ops (mgr_init w_init)))) /\
-  (exists ops, forallb parsable ops = true /\ forallb is_ok (mgr_classes ops (mgr_init w_init)) = true /\
-               ~ NoDup (held (mgr_run ops (mgr_init w_init)))).
-Proof.
-  split.
-  - exists w1, 1. destruct retire_refuted_in_use_w as (Hok & Hin & Hr). unfold all_ok in Hok.
-    apply andb_prop in Hok as [H1 H2]. repeat split; auto. lia.
-  - exists w2. destruct retire_refuted_held_twice_w as (Hok & Hc). unfold all_ok in Hok.
-    apply andb_prop in Hok as [H1 H2]. repeat split; auto.
-    intros Hnd. pose proof (fun s => proj1 (cntz_in s (held (mgr_run w2 (mgr_init w_init))))) as _.
-    assert (Hle : cntz 1 (held (mgr_run w2 (mgr_init w_init))) <= 1).
-    { clear Hc. induction Hnd as [|x l Hni Hnd IH]; simpl; [lia|].
-      destruct (Z.eqb_spec x 1) as [->|]; cbn [b2z]; [|lia]. rewrite cntz_notin by assumption. lia. }
-    lia.
-Qed.
+(** Regression: before the repair of conn_id_manager.go:83 these four histories queued
+    RETIRE_CONNECTION_ID for an ID in use (W1, W3b), held a sequence number twice (W2), or
+    re-queued a retired ID that then became active (W3). On the repaired code each is an
+    ordinary history ([hist_okb]) and ends as the retirement theorem demands. *)
+Lemma retire_regression_w :
+  (hist_okb w1 (mgr_init w_init) = true /\
+   cntz 1 (held (mgr_run w1 (mgr_init w_init))) = 1 /\ retc 1 (m_log (mgr_run w1 (mgr_init w_init))) = 0) /\
+  (hist_okb w2 (mgr_init w_init) = true /\ cntz 1 (held (mgr_run w2 (mgr_init w_init))) = 1) /\
+  (hist_okb w3 (mgr_init w_init) = true /\
+   m_active (mgr_run w3 (mgr_init w_init)) = 2 /\ cntz 1 (held (mgr_run w3 (mgr_init w_init))) = 0 /\
+   retc 1 (m_log (mgr_run w3 (mgr_init w_init))) = 2) /\
+  (hist_okb w3b (mgr_init w_init) = true /\
+   m_active (mgr_run w3b (mgr_init w_init)) = 1 /\ retc 1 (m_log (mgr_run w3b (mgr_init w_init))) = 0).
+Proof. vm_compute. repeat split; reflexivity. Qed.
 
 (** a history that satisfies all hypotheses and exercises reordering, Retire Prior To,
     rotation, path probing and a retransmission that is harmless *)
@@ -150,3 +90,16 @@ Definition w_good : list mop :=
 
 Lemma w_good_ok : hist_okb w_good (mgr_init w_init) = true.
 Proof. vm_compute. reflexivity. Qed.
+
+(** the advertised limit at work: after SetConnectionIDLimit(8) seven more IDs are accepted
+    (8 with the active one) and the next one is refused; without the call the limit is
+    MaxActiveConnectionIDs *)
+Definition w_lim8 : list mop := MSetLimit 8 :: map w_add [1; 2; 3; 4; 5; 6; 7].
+
+Lemma advertised_limit_example :
+  hist_okb w_lim8 (mgr_init w_init) = true /\
+  m_advlimit (mgr_run w_lim8 (mgr_init w_init)) = 8 /\
+  snd (mgr_add 8 0 [8; 7] 1008 0 (mgr_run w_lim8 (mgr_init w_init))) = RLimit /\
+  snd (mgr_add MaxActiveConnectionIDs 0 [4; 7] 1004 0
+         (mgr_run (map w_add [1; 2; 3]) (mgr_init w_init))) = RLimit.
+Proof. vm_compute. repeat split; reflexivity. Qed.
